@@ -229,6 +229,37 @@ func c05Work(c *engine.Ctx) {
 			}
 		}
 	}
+	// property names: every short string that looks like (part of) a number as a quoted key in every place a property
+	// name can stand; the printer may drop the quotes only where the result is read back as the same name
+	{
+		keyAl := engine.NewAlphabet(engine.Atoms(".", "0", "1", "9", "e", "E", "-", "+", "x", "n", "_", "a", "b", "o", " "))
+		c.EnumSeq(keyAl, 0, c.Pick(4, 5), func(in []byte, idx []int) {
+			key := string(in)
+			for _, q := range []string{"\"", "'"} {
+				for _, pos := range []string{"x = {%s: 1};", "class A { %s() {} }", "class B { static %s = 1; }", "({%s: a} = b);", "x = {get %s() { return 1; }};", "x = ({%s: a}) => a;"} {
+					all([]byte(strings.Replace(pos, "%s", q+key+q, 1)))
+				}
+			}
+			if len(idx) >= 1 {
+				c.Count("distinct_nontrivial", 1)
+				c.Count("property-name-family", 1)
+			}
+		})
+	}
+	// several preserved comments in one statement list, at every nesting level
+	for _, body := range []string{"/*! a */ /*! b */ x;", "/*! a */ x; /*! b */ y; /*! c */", "/*! a */\n/*! b */\n/*! c */", "x; /*! a *//*! b */", "//! a\n//! b\nx;", "/*! a */ //! b\n/*! c */ x;"} {
+		for depth := 0; depth <= 3; depth++ {
+			for _, wrap := range [][2]string{{"{", "}"}, {"if (a) {", "}"}, {"function g() {", "}"}, {"for (;;) {", "}"}, {"class B { m() {", "} }"}, {"x = () => {", "};"}, {"class C { static {", "} }"}, {"try {", "} catch { /*! d */ /*! e */ } finally { /*! f */ /*! g */ }"}, {"switch (a) { case 1:", "}"}} {
+				k++
+				if !c.Mine(k) {
+					continue
+				}
+				all([]byte(strings.Repeat(wrap[0], depth) + body + strings.Repeat(wrap[1], depth)))
+				c.Count("comment-family", 1)
+				c.Count("distinct_nontrivial", 1)
+			}
+		}
+	}
 	// statement adjacency: the printer ends statements with ';' or a line break; whatever statement comes first, a
 	// following statement that starts with a continuation token must stay a statement of its own, in every kind of
 	// statement list
